@@ -367,12 +367,13 @@ def task_regex(version):
 
 def main():
     chk = Check("C13")
-    tasks = [("task_function", (2,)), ("task_function", (3,)), ("task_except", (0,)), ("task_regex", (2,)), ("task_regex", (3,))]
+    ks = [2, 3, 4] if C.tier() == "quick" else [2, 3, 4, 5, 6, 8]
+    tasks = [("task_function", (k,)) for k in ks] + [("task_except", (0,)), ("task_regex", (2,)), ("task_regex", (3,))]
     for r in C.run_named_tasks("harness.textparse", tasks):
         chk.absorb_dict(r)
-    chk.input_model = ("(1) whole function with findall replaced by K in {2,3} symbolic candidates over %d strings (valid v2/v3.0/v3.1 vectors in several spellings, a v4 vector, invalid shapes), real constructors and real __eq__/__hash__ for the set; "
-                       "(2) constructors by summary raising every error class of their version; (3) the candidate pattern (read from the current source) compiled to an NFA and run symbolically over every valid vector (M-ASSIGN, canonical order or one adjacent transposition)" % len(CANDIDATES))
-    chk.bounds = ["(1) candidate alphabet finite, at most 3 candidates per text", "(3) field order: canonical or one adjacent transposition (the pinned pattern only counts characters of a class, so it is order-insensitive)"]
+    chk.input_model = ("(1) whole function with findall replaced by K symbolic candidates (K up to %d) over %d strings (valid v2/v3.0/v3.1 vectors in several spellings, a v4 vector, invalid shapes), real constructors and real __eq__/__hash__ for the set; "
+                       "(2) constructors by summary raising every error class of their version; (3) the candidate pattern (read from the current source) compiled to an NFA and run symbolically over every valid vector (M-ASSIGN, canonical order or one adjacent transposition)" % (max(ks), len(CANDIDATES)))
+    chk.bounds = ["(1) candidate alphabet finite, at most %d candidates per text" % max(ks), "(3) field order: canonical or one adjacent transposition (the pinned pattern only counts characters of a class, so it is order-insensitive)"]
     chk.outside = ["re's own scanning (leftmost, greedy, non-overlapping findall) is trusted: with it, a valid vector delimited by characters outside [A-Za-z:/] is a maximal run and hence a candidate (written argument)", "texts that are not str"]
     chk.stubs = ["re.Pattern.findall: returns the symbolic candidates", "compute_*_score: arbitrary"]
     chk.assumptions = ["set membership uses __hash__ and __eq__ (modelled: an element is inserted unless an element with equal hash and == is present)", "constructor error taxonomy: C04"]
